@@ -1,4 +1,4 @@
-from . import check_combo, check_establish, check_framing, check_pool, check_reqwire, check_upgrade, check_url
+from . import check_combo, check_errors, check_establish, check_framing, check_pool, check_reqwire, check_upgrade, check_url
 
 REGISTRY = {
     "C02": check_framing,
@@ -10,6 +10,7 @@ REGISTRY = {
     "C09": check_pool,
     "C10": check_combo,
     "C11": check_establish,
+    "C15": check_errors,
     "C16": check_combo,
     "C17": check_upgrade,
     "C19": check_url,
